@@ -1,2 +1,485 @@
-(* C01 / C02 fragment soundness: under construction (see Proofs/TypeSoundBasics.v). *)
-From VRL Require Import Proofs.TypeSoundBasics.
+(* C01 / C02 on the effect-free fragment of Core VRL, and the assignment steps:
+   - `pure_sound`: an expression built from literals, variables, queries, arrays, objects, groups,
+     == / !=, ! and exists, typed in a state the run-time state conforms to, evaluates without error and
+     without changing variables / event / metadata to a well-formed member of its (upgraded) kind, and its
+     type_info leaves the type state alone;
+   - `assign_var_sound`, `assign_ext_sound`: assigning such a value to a variable or to an event /
+     metadata path (inside C19's ins_ok) re-establishes conformance with the type state after the
+     assignment. *)
+From Coq Require Import List NArith ZArith Bool Lia.
+From VRL Require Import Base.Bytes Base.Value Model.ValueCrud Model.Kind Model.KindCrud Model.KindDomains
+  Model.Expr Model.Eval Model.TypeInfo Model.TypeFragment
+  Proofs.ValueCrudProofs Proofs.KindBasics Proofs.KindMergeProofs Proofs.KindGetProofs Proofs.KindInsertProofs
+  Proofs.KindRemoveProofs Proofs.ExprInd Proofs.EvalProofs Proofs.TypeInfoEqs Proofs.TypeConstProofs
+  Proofs.TypeSoundBasics.
+Import ListNotations.
+
+Lemma same_data_refl s : same_data s s.
+Proof. repeat split. Qed.
+Lemma same_data_trans a b c : same_data a b -> same_data b c -> same_data a c.
+Proof. unfold same_data. intros (A1 & A2 & A3 & A4) (B1 & B2 & B3 & B4). repeat split; congruence. Qed.
+Lemma conf_same_data G s s' : same_data s s' -> conf G s -> conf G s'.
+Proof.
+  unfold same_data, conf. intros (A1 & A2 & A3 & A4) (H1 & H2 & H3 & H4 & H5 & H6).
+  rewrite A1, A2, A3, A4. repeat split; auto.
+Qed.
+
+(* a read of the target when no fault is scheduled *)
+Lemma t_get_no_fault s pfx p : faults s = [] ->
+  fst (t_get s pfx p) = get (tval s pfx) p /\ same_data s (snd (t_get s pfx p)).
+Proof.
+  intros Hf. unfold t_get, pop_fault. rewrite Hf. cbn. repeat split; auto.
+Qed.
+
+Lemma member_upgrade_opt o k : is_never k = false -> member_opt o k = true ->
+  member (or_null o) (upgrade_undefined k) = true.
+Proof.
+  intros Hn H. pose proof (upgrade_sound o k H) as Hu. destruct o as [w|]; cbn [or_null]; auto.
+  rewrite Hn, orb_false_r in Hu. destruct (upgrade_undefined k) as [pr a o]. cbn in *. exact Hu.
+Qed.
+
+Lemma member_up v k : member v k = true -> member v (upgrade_undefined k) = true.
+Proof. apply member_upgrade. Qed.
+
+Lemma upgrade_never_no_member v k : is_never k = true -> member v (upgrade_undefined k) = false.
+Proof. intros H. unfold upgrade_undefined. rewrite H. apply member_is_never; auto. Qed.
+
+Lemma is_never_upgrade k : is_never (upgrade_undefined k) = is_never k.
+Proof.
+  unfold upgrade_undefined. destruct (is_never k) eqn:E; auto.
+  destruct (contains_undefined k); auto.
+  destruct k as [[] a o]. unfold is_never, p_is_none. cbn. rewrite !orb_true_r. reflexivity.
+Qed.
+
+(* a boolean-typed value is a boolean *)
+Lemma member_boolean_is_bool v k : k_is_boolean k = true -> member v (upgrade_undefined k) = true -> exists b, v = VBool b.
+Proof.
+  unfold k_is_boolean, only. intros Hk Hm. apply Nat.eqb_eq in Hk.
+  destruct k as [[pb pi pf pB pt pr pn pu] a o]. unfold nstates in Hk. cbn in Hk.
+  assert (pb = false /\ pi = false /\ pf = false /\ pt = false /\ pr = false /\ pn = false /\ pu = false
+          /\ a = None /\ o = None) as (-> & -> & -> & -> & -> & -> & -> & -> & ->).
+  { destruct pb, pi, pf, pB, pt, pr, pn, pu, a, o; cbn in Hk; try lia; repeat split; auto. }
+  unfold upgrade_undefined in Hm. destruct pB; cbn in Hm.
+  - destruct v; try discriminate. eauto.
+  - destruct v; discriminate.
+Qed.
+
+Ltac fin := repeat split; auto; try (unfold same_data in *; intuition congruence).
+
+Section Pure.
+  Variable F : fname -> list value -> option value.
+  Variable binop : opcode -> value -> value -> option value.
+  Variable T : fname -> list tdef -> list tdef -> tdef.
+  Hypothesis binop_eq : forall x y, exists b, binop OEq x y = Some (VBool b).
+  Hypothesis binop_ne : forall x y, exists b, binop ONe x y = Some (VBool b).
+  Notation ev' := (eval F binop).
+  Notation ti := (type_info binop T).
+  Notation pure_ok := (pure_ok binop T).
+
+  Definition pure_sound_at (e : expr) : Prop :=
+    forall G s, pure_ok e G = true -> conf G s ->
+    fst (ti e G) = G
+    /\ exists v s', ev' e s = (inl v, s') /\ same_data s s'
+                   /\ member v (upk (snd (ti e G))) = true /\ wf_value v = true.
+
+  (* ---------- arrays ---------- *)
+
+  Lemma arr_pure es : Forall pure_sound_at es -> forall G s acc accv fal,
+    forallb (fun e1 => pure_ok e1 G) es = true -> conf G s ->
+    Forall2 (fun v t => member v (td_kind t) = true) (rev accv) (rev acc) ->
+    (forall v, In v accv -> wf_value v = true) ->
+    fst (ti_arr binop T es G acc fal) = G
+    /\ exists vs s' tds,
+         arr_go F binop es accv s = (inl (VArr vs), s') /\ same_data s s'
+         /\ td_kind (snd (ti_arr binop T es G acc fal)) = arr_kind (map td_kind tds)
+         /\ Forall2 (fun v t => member v (td_kind t) = true) vs tds
+         /\ (forall v, In v vs -> wf_value v = true).
+  Proof.
+    induction 1 as [|e1 es H1 _ IH]; intros G s acc accv fal Hok Hc Hacc Hwf.
+    - cbn. split; auto. exists (rev accv), s, (rev acc). fin.
+      intros v Hv. apply Hwf. apply in_rev. exact Hv.
+    - cbn [forallb] in Hok. apply andb_true_iff in Hok. destruct Hok as [Hok1 Hok].
+      destruct (H1 G s Hok1 Hc) as (Hst & v & s1 & Hev & Hsd & Hm & Hwv).
+      cbn [ti_arr arr_go]. destruct (ti e1 G) as [G1 r0] eqn:Et. cbn [fst snd] in *. subst G1. rewrite Hev.
+      assert (is_never (td_kind (td_upgrade r0)) = false) as Hnn.
+      { destruct (is_never (td_kind (td_upgrade r0))) eqn:E; auto.
+        unfold upk in Hm. cbn in E. rewrite (member_is_never _ _ E) in Hm. discriminate. }
+      rewrite Hnn.
+      destruct (IH G s1 (td_upgrade r0 :: acc) (v :: accv) (fal || td_fal (td_upgrade r0)) Hok
+                   (conf_same_data _ _ _ Hsd Hc)) as (Hst' & vs & s' & tds & Hgo & Hsd' & Hk & Hf2 & Hw).
+      + cbn [rev]. apply Forall2_app; auto.
+      + intros w [<-|Hw]; auto.
+      + split; auto. exists vs, s', tds. fin.
+  Qed.
+
+  (* ---------- objects ---------- *)
+
+  (* value and kind maps built in step agree key by key *)
+  Definition obj_rel (m : obj) (ks : list (bytes * kind)) : Prop :=
+    forall key, match obj_get m key, aget bytes_eqb ks key with
+                | Some w, Some k => member w k = true /\ wf_value w = true
+                | None, None => True
+                | _, _ => False
+                end.
+
+  Lemma obj_rel_set m ks key w k : obj_rel m ks -> member w k = true -> wf_value w = true ->
+    obj_rel (obj_set m key w) (aset bytes_cmp ks key k).
+  Proof.
+    intros Hr Hm Hw key'. rewrite (aget_aset bytes_eqb bytes_cmp bytes_eqb_eq bytes_cmp_eq).
+    destruct (bytes_eqb key key') eqn:E.
+    - apply bytes_eqb_eq in E; subst. rewrite obj_get_set_same. auto.
+    - rewrite obj_get_set_other by (apply bytes_eqb_neq in E; congruence). apply Hr.
+  Qed.
+
+  Lemma obj_rel_member m ks : obj_sorted m = true -> obj_rel m ks ->
+    member (VObj m) (k_object (mkC ks (UExact k_undefined))) = true /\ wf_value (VObj m) = true.
+  Proof.
+    intros Hs Hr. split.
+    - rewrite member_obj. cbn [obj_of k_object]. apply obj_ok_intro.
+      + intros f w Hin. pose proof (Hr f) as H. rewrite (sorted_in_get _ Hs _ _ Hin) in H.
+        unfold coll_at. cbn [known]. destruct (aget bytes_eqb ks f); tauto.
+      + intros f Hf. pose proof (Hr f) as H. rewrite Hf in H. unfold coll_at. cbn [known].
+        destruct (aget bytes_eqb ks f); [contradiction | reflexivity].
+    - apply wf_obj_intro; auto. intros g w Hin. pose proof (Hr g) as H.
+      rewrite (sorted_in_get _ Hs _ _ Hin) in H. destruct (aget bytes_eqb ks g); tauto.
+  Qed.
+
+  Definition fold_kinds (ks : list (bytes * kind)) (init : list (bytes * kind)) : list (bytes * kind) :=
+    fold_left (fun m kv => aset bytes_cmp m (fst kv) (snd kv)) ks init.
+
+  Lemma obj_pure kvs : Forall (fun kv => pure_sound_at (snd kv)) kvs -> forall G s acc accm fal ret,
+    forallb (fun kv => pure_ok (snd kv) G) kvs = true -> conf G s ->
+    obj_sorted accm = true -> obj_rel accm (fold_kinds (rev acc) []) ->
+    fst (ti_obj binop T kvs G acc fal ret) = G
+    /\ exists m s', obj_go F binop kvs accm s = (inl (VObj m), s') /\ same_data s s'
+         /\ member (VObj m) (td_kind (snd (ti_obj binop T kvs G acc fal ret))) = true /\ wf_value (VObj m) = true.
+  Proof.
+    induction 1 as [|[k e1] kvs H1 _ IH]; intros G s acc accm fal ret Hok Hc Hs Hr.
+    - cbn. split; auto. exists accm, s. fin; apply (obj_rel_member accm _ Hs Hr).
+    - cbn [forallb snd] in Hok. apply andb_true_iff in Hok. destruct Hok as [Hok1 Hok].
+      cbn [snd] in H1. destruct (H1 G s Hok1 Hc) as (Hst & v & s1 & Hev & Hsd & Hm & Hwv).
+      cbn [ti_obj obj_go]. destruct (ti e1 G) as [G1 r0] eqn:Et. cbn [fst snd] in *. subst G1. rewrite Hev.
+      assert (is_never (td_kind (td_upgrade r0)) = false) as Hnn.
+      { destruct (is_never (td_kind (td_upgrade r0))) eqn:E; auto.
+        unfold upk in Hm. cbn in E. rewrite (member_is_never _ _ E) in Hm. discriminate. }
+      rewrite Hnn.
+      destruct (IH G s1 ((k, td_kind (td_upgrade r0)) :: acc) (obj_set accm k v) (fal || td_fal (td_upgrade r0))
+                   (union ret (td_ret (td_upgrade r0))) Hok (conf_same_data _ _ _ Hsd Hc))
+        as (Hst' & m & s' & Hgo & Hsd' & Hmm & Hwm).
+      + apply sorted_obj_set; auto.
+      + cbn [rev]. unfold fold_kinds. rewrite fold_left_app. cbn [fold_left fst snd].
+        apply obj_rel_set; auto.
+      + split; auto. exists m, s'. fin.
+  Qed.
+
+  (* ---------- the fragment ---------- *)
+
+  Lemma conf_var G s x d : conf G s -> lvar (locals G) x = Some d ->
+    exists v, var_get (vars s) x = Some v /\ member v (td_kind (fst d)) = true /\ wf_value v = true.
+  Proof. intros (H & _) E. eauto. Qed.
+
+  Lemma conf_ext G s pfx : conf G s -> member (tval s pfx) (ext_kind G pfx) = true /\ wf_value (tval s pfx) = true.
+  Proof. intros (_ & H1 & H2 & H3 & H4 & _). destruct pfx; cbn; auto. Qed.
+
+  Lemma query_sound v k p : wf_value v = true -> q_ok k p = true -> member v k = true ->
+    member (or_null (get v p)) (upgrade_undefined (at_path k p)) = true /\ wf_value (or_null (get v p)) = true.
+  Proof.
+    intros Hw Hok Hm. unfold q_ok in Hok. apply andb_true_iff in Hok. destruct Hok as [Hok Hnn].
+    apply negb_true_iff in Hnn. split.
+    - apply member_upgrade_opt; auto. apply get_sound; auto.
+    - apply wf_or_null. intros w Hg. eapply wf_get; eauto.
+  Qed.
+
+  Theorem pure_sound : forall e, pure_sound_at e.
+  Proof.
+    induction e using expr_ind'; intros G s Hok Hc; try (cbn in Hok; discriminate).
+    - (* literal *)
+      cbn in *. split; auto. exists v, s. fin.
+      unfold upk. cbn. apply member_up. apply member_kind_of_value; auto.
+    - (* variable *)
+      cbn in Hok. destruct (lvar (locals G) x) as [d|] eqn:E; [|discriminate].
+      destruct (conf_var _ _ _ _ Hc E) as (v & Hv & Hm & Hw).
+      cbn. rewrite E, Hv. split; auto. exists v, s. fin. apply member_up; auto.
+    - (* external query *)
+      destruct Hc as (Hv & Hc'). pose proof (conf_ext G s pfx (conj Hv Hc')) as [Hm Hw].
+      destruct Hc' as (_ & _ & _ & _ & Hf).
+      destruct (t_get_no_fault s pfx p Hf) as [Hg Hsd].
+      cbn [eval type_info]. destruct (t_get s pfx p) as [r s'] eqn:Et. cbn [fst snd] in *. subst r.
+      split; auto. cbn in Hok.
+      destruct (query_sound _ _ _ Hw Hok Hm) as [Hq Hqw].
+      exists (or_null (get (tval s pfx) p)), s'. fin.
+    - (* variable query *)
+      cbn in Hok. apply andb_true_iff in Hok. destruct Hok as [Hx Hok].
+      unfold var_td in Hok. destruct (lvar (locals G) x) as [d|] eqn:E; [|discriminate].
+      destruct (conf_var _ _ _ _ Hc E) as (v & Hv & Hm & Hw).
+      cbn. rewrite E, Hv. cbn [or_null]. split; auto.
+      destruct (query_sound _ _ _ Hw Hok Hm) as [Hq Hqw].
+      exists (or_null (get v p)), s. fin.
+    - (* query on an expression *)
+      cbn in Hok. apply andb_true_iff in Hok. destruct Hok as [Hok Hg].
+      apply andb_true_iff in Hok. destruct Hok as [Hok1 Hnu]. apply negb_true_iff in Hnu.
+      destruct (IHe G s Hok1 Hc) as (Hst & v & s1 & Hev & Hsd & Hm & Hw).
+      cbn [eval type_info]. rewrite Hev. destruct (ti e G) as [G1 r] eqn:Et. cbn [fst snd] in *. subst G1.
+      assert (member v (td_kind r) = true) as Hm'.
+      { unfold upk, upgrade_undefined in Hm. rewrite Hnu in Hm. destruct (is_never (td_kind r)); exact Hm. }
+      destruct (query_sound _ _ _ Hw Hg Hm') as [Hq Hqw].
+      split; auto. exists (or_null (get v p)), s1. fin.
+    - (* array *)
+      rewrite eval_arr, ti_arr_eq. cbn in Hok.
+      destruct (arr_pure es H G s [] [] false Hok Hc) as (Hst & vs & s' & tds & Hgo & Hsd & Hk & Hf2 & Hw);
+        try (cbn; auto; fail).
+      split; auto. exists (VArr vs), s'. fin.
+      + unfold upk. rewrite Hk. apply member_up. apply member_arr_kind.
+        clear - Hf2. induction Hf2; cbn; constructor; auto.
+      + apply wf_arr_intro; auto.
+    - (* object *)
+      rewrite eval_obj, ti_obj_eq. cbn in Hok.
+      destruct (obj_pure kvs H G s [] [] false k_never Hok Hc) as (Hst & m & s' & Hgo & Hsd & Hm & Hw); auto.
+      { intros key. cbn. auto. }
+      split; auto. exists (VObj m), s'. fin. apply member_up; auto.
+    - (* group *) cbn in *. apply IHe; auto.
+    - (* == / != *)
+      assert (pure_ok e1 G = true /\ pure_ok e2 G = true /\ (o = OEq \/ o = ONe)) as (Hok1 & Hok2 & Ho).
+      { destruct o; cbn in Hok; try discriminate; apply andb_true_iff in Hok; tauto. }
+      destruct (IHe1 G s Hok1 Hc) as (Hst1 & v1 & s1 & Hev1 & Hsd1 & Hm1 & Hw1).
+      destruct (IHe2 G s1 Hok2 (conf_same_data _ _ _ Hsd1 Hc)) as (Hst2 & v2 & s2 & Hev2 & Hsd2 & Hm2 & Hw2).
+      assert (exists b, binop o v1 v2 = Some (VBool b)) as [b Hb] by (destruct Ho; subst; auto).
+      assert (plain o = true) as Hp by (destruct Ho; subst; reflexivity).
+      rewrite (eval_plain F binop o e1 e2 s Hp), Hev1, Hev2, Hb.
+      assert (ti (EOp o e1 e2) G = (G, td_with_kind (td_union (snd (ti e1 G)) (snd (ti e2 G))) k_boolean)) as ->.
+      { destruct Ho; subst; cbn [type_info]; destruct (ti e1 G) as [Ga l]; cbn [fst snd] in *; subst Ga;
+          destruct (ti e2 G) as [Gb r]; cbn [fst snd] in *; subst Gb; reflexivity. }
+      split; auto. exists (VBool b), s2. fin.
+    - (* ! *)
+      cbn in Hok. apply andb_true_iff in Hok. destruct Hok as [Hok1 Hb].
+      destruct (IHe G s Hok1 Hc) as (Hst & v & s1 & Hev & Hsd & Hm & Hw).
+      destruct (member_boolean_is_bool _ _ Hb Hm) as [b ->].
+      cbn [eval type_info]. rewrite Hev. destruct (ti e G) as [G1 r]. cbn [fst snd] in *. subst G1.
+      split; auto. exists (VBool (negb b)), s1. fin.
+    - (* exists(.path) *)
+      destruct Hc as (Hv & _ & _ & _ & _ & Hf).
+      destruct (t_get_no_fault s pfx p Hf) as [Hg Hsd].
+      cbn [eval type_info]. destruct (t_get s pfx p) as [r s'] eqn:Et. cbn [fst snd] in *.
+      split; auto. eexists _, s'. fin.
+    - (* exists(var.path) *)
+      cbn. split; auto. eexists _, s. fin.
+  Qed.
+End Pure.
+
+(* ---------- assignment ---------- *)
+
+Lemma insert_up_sound v k p xv kx :
+  wf_value v = true -> ins_ok false k p = true -> member v k = true -> member xv (upgrade_undefined kx) = true ->
+  member (insert v p xv) (kinsert k p kx) = true.
+Proof.
+  intros Hwf Hok Hm Hx. unfold insert, kinsert.
+  apply (ins_sound xv (upgrade_undefined kx) Hx p false (Some v) k Hok). exists v. auto.
+Qed.
+
+Lemma insert_conf t G s v r c :
+  assign_ok t G = true -> conf G s -> member v (upk r) = true -> wf_value v = true ->
+  conf (insert_type_def t G r c) (target_insert s t v).
+Proof.
+  intros Hok Hc Hm Hw. destruct t as [|x p|pfx p].
+  - exact Hc.
+  - (* variable *)
+    destruct Hc as (Hv & He & Hwe & Hmd & Hwm & Hf).
+    assert (forall w kx, member w kx = true -> wf_value w = true ->
+              conf (mkTs (lset (locals G) x (mkTd (td_fal (match lvar (locals G) x with Some d => fst d | None => td_of k_never end) || td_fal r) kx
+                                                (td_ret (match lvar (locals G) x with Some d => fst d | None => td_of k_never end)), c)) (tgt G) (mdk G))
+                   (set_vars s (var_set (vars s) x w))) as Hset.
+    { intros w kx Hmw Hww. unfold conf. cbn [locals tgt mdk set_vars vars ev md faults]. repeat split; auto.
+      intros y d Hy. rewrite lvar_lset in Hy. destruct (bytes_eqb x y) eqn:E.
+      - apply bytes_eqb_eq in E; subst y. inversion Hy; subst d. cbn [fst td_kind].
+        exists w. rewrite var_get_set_same. auto.
+      - rewrite var_get_set_other by exact E. apply Hv; auto. }
+    destruct p as [|sg p].
+    + (* the whole variable *)
+      cbn [insert_type_def target_insert]. unfold td_with_type_inserted, kinsert. cbn [insert_rec].
+      unfold upk in Hm. rewrite (member_not_never _ _ Hm). apply Hset; auto.
+    + (* a path below a known variable *)
+      cbn [assign_ok] in Hok. destruct (lvar (locals G) x) as [d|] eqn:El; [|discriminate].
+      destruct (Hv x d El) as (w & Hg & Hmw & Hww).
+      cbn [insert_type_def]. rewrite El.
+      assert (target_insert s (TVar x (sg :: p)) v = set_vars s (var_set (vars s) x (insert w (sg :: p) v))) as ->.
+      { cbn [target_insert]. rewrite Hg. reflexivity. }
+      unfold td_with_type_inserted. specialize (Hset (insert w (sg :: p) v) (kinsert (td_kind (fst d)) (sg :: p) (td_kind r))).
+      apply Hset.
+      * apply insert_up_sound; auto.
+      * apply wf_insert; auto.
+  - (* event / metadata *)
+    cbn [assign_ok] in Hok. destruct Hc as (Hv & He & Hwe & Hmd & Hwm & Hf).
+    cbn [insert_type_def target_insert]. unfold t_insert, pop_fault. rewrite Hf.
+    destruct pfx; cbn [ext_kind set_ext_kind with_target tval] in *; unfold conf;
+      cbn [locals tgt mdk vars ev md faults]; repeat split; auto;
+      try (apply insert_up_sound; auto); try (apply wf_insert; auto).
+Qed.
+
+Section Straight.
+  Variable F : fname -> list value -> option value.
+  Variable binop : opcode -> value -> value -> option value.
+  Variable T : fname -> list tdef -> list tdef -> tdef.
+  Hypothesis binop_eq : forall x y, exists b, binop OEq x y = Some (VBool b).
+  Hypothesis binop_ne : forall x y, exists b, binop ONe x y = Some (VBool b).
+  Notation ev' := (eval F binop).
+  Notation ti := (type_info binop T).
+  Notation stmt_ok := (stmt_ok binop T).
+  Notation stmts_ok := (stmts_ok binop T).
+
+  Lemma stmt_sound e G s : stmt_ok e G = true -> conf G s ->
+    exists v s', ev' e s = (inl v, s') /\ conf (fst (ti e G)) s'
+                 /\ member v (upk (snd (ti e G))) = true /\ wf_value v = true.
+  Proof.
+    intros Hok Hc.
+    assert (pure_ok binop T e G = true -> exists v s', ev' e s = (inl v, s') /\ conf (fst (ti e G)) s'
+                 /\ member v (upk (snd (ti e G))) = true /\ wf_value v = true) as Hpure.
+    { intros Hp. destruct (pure_sound F binop T binop_eq binop_ne e G s Hp Hc) as (Hst & v & s' & Hev & Hsd & Hm & Hw).
+      exists v, s'. rewrite Hst. split; [exact Hev|split; [eapply conf_same_data; eauto|split; auto]]. }
+    destruct e; try (apply Hpure; exact Hok).
+    cbn [stmt_ok] in Hok. apply andb_true_iff in Hok. destruct Hok as [Hp Ha].
+    destruct (pure_sound F binop T binop_eq binop_ne e G s Hp Hc) as (Hst & v & s1 & Hev & Hsd & Hm & Hw).
+    cbn [eval type_info]. rewrite Hev. destruct (ti e G) as [G1 r] eqn:Et. cbn [fst snd] in *. subst G1.
+    exists v, (target_insert s1 t v). split; [reflexivity|split; [|split; auto]].
+    apply insert_conf; auto. eapply conf_same_data; eauto.
+  Qed.
+
+  Lemma blk_sound : forall es G s res fal an ret, es <> [] -> stmts_ok es G = true -> conf G s ->
+    exists v s', blk F binop es s = (inl v, s')
+                 /\ conf (fst (ti_blk binop T es G res fal an ret)) s'
+                 /\ member v (upk (snd (ti_blk binop T es G res fal an ret))) = true /\ wf_value v = true.
+  Proof.
+    induction es as [|e es IH]; intros G s res fal an ret Hne Hok Hc; [congruence|].
+    cbn [stmts_ok] in Hok. apply andb_true_iff in Hok. destruct Hok as [Hs Hr].
+    destruct (stmt_sound e G s Hs Hc) as (v & s1 & Hev & Hc1 & Hm & Hw).
+    cbn [ti_blk]. destruct (ti e G) as [G1 r] eqn:Et. cbn [fst snd] in *.
+    destruct es as [|e2 es].
+    - cbn [blk ti_blk]. exists v, s1. split; [exact Hev|split; [exact Hc1|split; auto]].
+    - assert (blk F binop (e :: e2 :: es) s = blk F binop (e2 :: es) s1) as ->.
+      { cbn [blk]. rewrite Hev. reflexivity. }
+      apply IH; auto. discriminate.
+  Qed.
+
+  (* C01 + C02 for straight-line programs of the fragment: the program ends with a value (in particular
+     not with an error), the value is in the kind the compiler computed for the program, and the event
+     and metadata it leaves are in the final kinds of Program::final_type_info *)
+  Theorem straightline_sound es G s : es <> [] -> stmts_ok es G = true -> conf G s ->
+    exists v s', blk F binop es s = (inl v, s')
+                 /\ member v (upgrade_undefined (td_kind (snd (program_type_info binop T es G)))) = true
+                 /\ member (ev s') (tgt (fst (program_type_info binop T es G))) = true
+                 /\ member (md s') (mdk (fst (program_type_info binop T es G))) = true
+                 /\ conf (fst (program_type_info binop T es G)) s'.
+  Proof.
+    intros Hne Hok Hc. rewrite ti_program_eq. unfold ti_block.
+    destruct (blk_sound es G s (td_of k_null) false false k_never Hne Hok Hc) as (v & s' & Hb & Hc' & Hm & Hw).
+    destruct (ti_blk binop T es G (td_of k_null) false false k_never) as [G' r]. cbn [fst snd] in *.
+    exists v, s'. split; [exact Hb|split; [exact Hm|split; [apply Hc'|split; [apply Hc'|exact Hc']]]].
+  Qed.
+
+  (* the same at the level of Runtime::resolve, from the initial state of a run *)
+  Theorem run_sound es ek mk event meta :
+    es <> [] -> stmts_ok es (ts0 ek mk) = true ->
+    member event ek = true -> wf_value event = true -> member meta mk = true -> wf_value meta = true ->
+    exists v s', run F binop es (st0 [] event meta) = (Success v, s')
+                 /\ member v (upgrade_undefined (td_kind (snd (program_type_info binop T es (ts0 ek mk))))) = true
+                 /\ member (ev s') (tgt (fst (program_type_info binop T es (ts0 ek mk)))) = true
+                 /\ member (md s') (mdk (fst (program_type_info binop T es (ts0 ek mk)))) = true.
+  Proof.
+    intros Hne Hok He Hwe Hm Hwm.
+    assert (conf (ts0 ek mk) (st0 [] event meta)) as Hc.
+    { unfold conf, ts0, st0. cbn. repeat split; auto. intros x d Hx. discriminate. }
+    destruct (straightline_sound es (ts0 ek mk) (st0 [] event meta) Hne Hok Hc) as (v & s' & Hb & Hv & Hev & Hmd & _).
+    exists v, s'. unfold run, pop_fault. cbn [faults st0].
+    change (mkState (vars (st0 [] event meta)) (ev (st0 [] event meta)) (md (st0 [] event meta))
+                    (tlog (st0 [] event meta)) []) with (st0 [] event meta).
+    rewrite eval_block, Hb. auto.
+  Qed.
+End Straight.
+
+(* ---------- C12: the constants of the type state stay right along the fragment ---------- *)
+
+Section ConstInvariant.
+  Variable F : fname -> list value -> option value.
+  Variable binop : opcode -> value -> value -> option value.
+  Variable T : fname -> list tdef -> list tdef -> tdef.
+  Hypothesis binop_eq : forall x y, exists b, binop OEq x y = Some (VBool b).
+  Hypothesis binop_ne : forall x y, exists b, binop ONe x y = Some (VBool b).
+  Notation ev' := (eval F binop).
+  Notation ti := (type_info binop T).
+
+  Lemma consts_same_data G s s' : same_data s s' -> consts_ok G s -> consts_ok G s'.
+  Proof. intros (Hv & _) H x t c Hx. rewrite Hv. eapply H; eauto. Qed.
+
+  Lemma stmt_consts e G s : stmt_ok binop T e G = true -> const_stmt_ok binop e G = true ->
+    conf G s -> consts_ok G s ->
+    consts_ok (fst (ti e G)) (snd (ev' e s)).
+  Proof.
+    intros Hok Hcs Hc Hk.
+    assert (pure_ok binop T e G = true -> consts_ok (fst (ti e G)) (snd (ev' e s))) as Hpure.
+    { intros Hp. destruct (pure_sound F binop T binop_eq binop_ne e G s Hp Hc) as (Hst & v & s' & Hev & Hsd & _).
+      rewrite Hst, Hev. cbn [snd]. eapply consts_same_data; eauto. }
+    destruct e; try (apply Hpure; exact Hok).
+    cbn [stmt_ok] in Hok. apply andb_true_iff in Hok. destruct Hok as [Hp Ha].
+    destruct (pure_sound F binop T binop_eq binop_ne e G s Hp Hc) as (Hst & v & s1 & Hev & Hsd & _).
+    cbn [eval type_info]. rewrite Hev. destruct (ti e G) as [G1 r] eqn:Et. cbn [fst snd] in *. subst G1.
+    pose proof (consts_same_data G s s1 Hsd Hk) as Hk1.
+    assert (forall x w d, (forall cy, snd d = Some cy -> w = cy) ->
+              consts_ok (mkTs (lset (locals G) x d) (tgt G) (mdk G)) (set_vars s1 (var_set (vars s1) x w))) as Hset.
+    { intros x w d Hd y ty cy Hy. cbn [locals] in Hy. rewrite lvar_lset in Hy. cbn [set_vars vars].
+      destruct (bytes_eqb x y) eqn:E.
+      - apply bytes_eqb_eq in E; subst y. inversion Hy; subst d. rewrite var_get_set_same. f_equal. apply Hd. reflexivity.
+      - rewrite var_get_set_other by exact E. eapply Hk1; eauto. }
+    destruct t as [|x p|pfx p].
+    - exact Hk1.
+    - destruct p as [|sg p].
+      + cbn [insert_type_def target_insert]. apply Hset. cbn [snd]. intros cy Hcy.
+        pose proof (const_sound F binop e G s cy Hk Hcy) as Hev'. rewrite Hev in Hev'. inversion Hev'. reflexivity.
+      + cbn [const_stmt_ok] in Hcs. apply negb_true_iff in Hcs.
+        destruct (resolve_constant binop e G) as [cc|] eqn:Erc; [discriminate|].
+        cbn [insert_type_def].
+        assert (exists w, target_insert s1 (TVar x (sg :: p)) v = set_vars s1 (var_set (vars s1) x w)) as [w ->].
+        { cbn [target_insert]. destruct (var_get (vars s1) x); eexists; reflexivity. }
+        apply Hset. cbn [snd]. intros cy Hcy. discriminate.
+    - cbn [insert_type_def target_insert]. unfold t_insert. destruct (pop_fault s1) as [bad fs].
+      intros y ty cy Hy. assert (lvar (locals G) y = Some (ty, Some cy)) as Hy' by (destruct pfx; exact Hy).
+      destruct pfx; cbn [with_target vars]; eapply Hk1; eauto.
+  Qed.
+
+  Lemma blk_consts : forall es G s res fal an ret, es <> [] ->
+    stmts_ok binop T es G = true -> const_stmts_ok binop T es G = true -> conf G s -> consts_ok G s ->
+    consts_ok (fst (ti_blk binop T es G res fal an ret)) (snd (blk F binop es s)).
+  Proof.
+    induction es as [|e es IH]; intros G s res fal an ret Hne Hok Hcs Hc Hk; [congruence|].
+    cbn [stmts_ok] in Hok. apply andb_true_iff in Hok. destruct Hok as [Hs Hr].
+    cbn [const_stmts_ok] in Hcs. apply andb_true_iff in Hcs. destruct Hcs as [Hcs Hcr].
+    pose proof (stmt_consts e G s Hs Hcs Hc Hk) as Hk1.
+    destruct (stmt_sound F binop T binop_eq binop_ne e G s Hs Hc) as (v & s1 & Hev & Hc1 & _).
+    rewrite Hev in Hk1. cbn [snd] in Hk1.
+    cbn [ti_blk]. destruct (ti e G) as [G1 r] eqn:Et. cbn [fst snd] in *.
+    destruct es as [|e2 es].
+    - cbn [blk ti_blk]. rewrite Hev. exact Hk1.
+    - assert (blk F binop (e :: e2 :: es) s = blk F binop (e2 :: es) s1) as ->.
+      { cbn [blk]. rewrite Hev. reflexivity. }
+      apply IH; auto. discriminate.
+  Qed.
+
+  (* at the end of a straight-line program of the fragment, every constant the compiler holds for a
+     variable is the value of that variable *)
+  Theorem straightline_consts es ek mk event meta :
+    es <> [] -> stmts_ok binop T es (ts0 ek mk) = true -> const_stmts_ok binop T es (ts0 ek mk) = true ->
+    member event ek = true -> wf_value event = true -> member meta mk = true -> wf_value meta = true ->
+    consts_ok (fst (program_type_info binop T es (ts0 ek mk))) (snd (run F binop es (st0 [] event meta))).
+  Proof.
+    intros Hne Hok Hcs He Hwe Hm Hwm.
+    assert (conf (ts0 ek mk) (st0 [] event meta)) as Hc.
+    { unfold conf, ts0, st0. cbn. repeat split; auto. intros x d Hx. discriminate. }
+    assert (consts_ok (ts0 ek mk) (st0 [] event meta)) as Hk by (intros x t c Hx; discriminate).
+    pose proof (blk_consts es (ts0 ek mk) (st0 [] event meta) (td_of k_null) false false k_never Hne Hok Hcs Hc Hk) as H.
+    destruct (straightline_sound F binop T binop_eq binop_ne es _ _ Hne Hok Hc) as (v & s' & Hb & _).
+    rewrite ti_program_eq. unfold ti_block.
+    destruct (ti_blk binop T es (ts0 ek mk) (td_of k_null) false false k_never) as [G' r]. cbn [fst] in *.
+    unfold run, pop_fault. cbn [faults st0].
+    change (mkState (vars (st0 [] event meta)) (ev (st0 [] event meta)) (md (st0 [] event meta))
+                    (tlog (st0 [] event meta)) []) with (st0 [] event meta).
+    rewrite eval_block. rewrite Hb in *. exact H.
+  Qed.
+End ConstInvariant.
